@@ -333,8 +333,14 @@ class Cases:
         def one(job):
             k, f = job
             rc, out, err = coqc_file(f, timeout=timeout)
+            tries = 0
+            # killed by a signal / timed out / out of memory without a Coq error message: the machine was
+            # overloaded, not the model wrong - retry (alone) before calling the shard broken
+            while rc != 0 and not re.search(r"Error|error:", err) and tries < 2:
+                tries += 1
+                rc, out, err = coqc_file(f, timeout=timeout * 2)
             if rc != 0:
-                return (k, f, None, err[-1500:])
+                return (k, f, None, (err[-1500:] or f"coqc exit status {rc} without a message (timeout {timeout}s?)"))
             m = re.search(r"=\s*\[(.*?)\]\s*:\s*list Z", out, re.S)
             if not m:
                 return (k, f, None, "unparsed output: " + out[-500:])
